@@ -63,6 +63,14 @@ def handle : List Sx → Sx
       | .error .syntax => .list [.atom "err", .atom "syntax"]
       | .error .outOfFuel => .list [.atom "err", .atom "fuel"]
     | _, _ => .atom "bad-request"
+  | [.atom "chain", .atom n] =>
+    -- a left-associative chain of n links against MAX_CHAIN_LENGTH read from the source
+    match n.toNat? with
+    | some k =>
+      match chainLoop VibeProof.Generated.parserMaxChainLength 0 k with
+      | .ok d => .list [.atom "ok", sxNat d]
+      | .error .tooLong => .list [.atom "err", .atom "tooLong"]
+    | none => .atom "bad-request"
   | _ => .atom "bad-request"
 
 def main : IO Unit := runDriver handle
